@@ -505,6 +505,7 @@ static void stage_lsb(Case &c)
             Group bg;
             if(!bend_one(c, r, ch, bend14, cch, false, &bg, J.fam, kind)) break;
             uint64_t prev = 0; bool have_prev = false; int prev_lsb = -1;
+            uint64_t G_at0 = 0; bool have0 = false;
             for(int lsb = 0; lsb < 128; lsb++)
             {
                 cc(r, ch, 38, lsb);       // the statement does not say a range change re-pitches sounding notes: send the bend again
@@ -530,6 +531,16 @@ static void stage_lsb(Case &c)
                     c.violation(vfmt("oracle:C10:rpn0-lsb-not-monotone:%s:%s", J.fam, kind),
                                 vfmt("%s bend=%d: lsb %d -> %d moves the frequency the wrong way (%llu -> %llu in block-0 F-number units)", ctx.c_str(), bend14, prev_lsb, lsb,
                                      (unsigned long long)prev, (unsigned long long)G));
+                // whatever the unit of the LSB (cents or 1/128 semitone), half of its span moves a clearly bent note by a clearly
+                // measurable amount (>= 0.2 semitone at |bend| >= 0.4): an LSB that is stored but never applied leaves it where it was
+                if(lsb == 0 && in_native) { G_at0 = G; have0 = true; }
+                if(lsb == 64 && have0 && in_native && fabs(bn) >= 0.4 && msb < 120 && plo > 12.0)   // (below p = 0 the library clamps the tone)
+                {
+                    count("lsb_effect_checks");
+                    if((bn > 0 && G <= G_at0) || (bn < 0 && G >= G_at0))
+                        c.violation(vfmt("oracle:C10:rpn0-lsb-has-no-effect:%s:%s", J.fam, kind),
+                                    vfmt("%s bend=%d: range LSB 0 -> 64 leaves the frequency at %llu (block-0 F-number units, %llu at LSB 0): the fractional part of the bend range is not applied", ctx.c_str(), bend14, (unsigned long long)G, (unsigned long long)G_at0));
+                }
                 prev = G; have_prev = in_native; prev_lsb = lsb;
                 cover(vfmt("%s|blk%u|%s|%s|lsb%s|%s", J.fam, block, Judge::key_class(key), Judge::bend_class(bend14), lsb == 0 ? "0" : lsb == 127 ? "127" : "mid", kind));
             }
